@@ -10,7 +10,16 @@ use serde_json::{json, Value};
 use std::collections::BTreeMap;
 use std::sync::atomic::{AtomicU64, Ordering};
 
-pub const COMMENT_CLASSES: &[&str] = &[" c", "  lead", " trail  ", " \u{e9}\u{1f600}", " a // b", ""];
+pub const COMMENT_CLASSES: &[&str] = &[
+    " c",
+    "  lead",
+    " trail  ",
+    " \u{e9}\u{1f600}",
+    " a // b",
+    "",
+    // longer than 120 columns, with commas, blanks, brackets and quotes inside
+    " a long comment, with commas, (brackets), 'quotes' and ; semicolons, repeated: x, y, z; x, y, z; x, y, z; x, y, z; x, y, z; x, y, z; x, y, z; end",
+];
 
 /// Err(kind, detail)
 pub fn eval_text(text: &str) -> Result<(), (String, String)> {
